@@ -882,3 +882,39 @@ func DerivesFromCallDeep(v ssa.Value, depth int, names ...string) bool {
 	}
 	return visit(v, 0, pkg)
 }
+
+// VariadicArgs returns the values stored into the backing array of a variadic argument (new [n]T; stores; slice),
+// in index order; nil when v is not of that shape.
+func VariadicArgs(v ssa.Value) []ssa.Value {
+	sl, ok := v.(*ssa.Slice)
+	if !ok {
+		return nil
+	}
+	al, ok := sl.X.(*ssa.Alloc)
+	if !ok {
+		return nil
+	}
+	byIdx := map[int64]ssa.Value{}
+	max := int64(-1)
+	for _, ref := range *al.Referrers() {
+		if ia, ok := ref.(*ssa.IndexAddr); ok {
+			k, ok := ConstInt(ia.Index)
+			if !ok {
+				return nil
+			}
+			for _, r2 := range *ia.Referrers() {
+				if st, ok := r2.(*ssa.Store); ok && st.Addr == ssa.Value(ia) {
+					byIdx[k] = st.Val
+					if k > max {
+						max = k
+					}
+				}
+			}
+		}
+	}
+	out := make([]ssa.Value, max+1)
+	for k, v := range byIdx {
+		out[k] = v
+	}
+	return out
+}
